@@ -394,6 +394,21 @@ func (x *X) instr(fr *frame, b *ssa.BasicBlock, in ssa.Instruction, only map[int
 	case *ssa.If:
 		c := x.get(fr, in.Cond).(S).T
 		c = x.define("c", SBool, c)
+		if x.prune && x.st.cond != "false" {
+			// a function under contract: branches its precondition rules out are not followed
+			switch {
+			case x.unreachable(and(x.st.cond, c)):
+				x.pruned++
+				x.pushEdge(fr, b, b.Succs[0], "false", only)
+				x.pushEdge(fr, b, b.Succs[1], "true", only)
+				return
+			case x.unreachable(and(x.st.cond, not(c))):
+				x.pruned++
+				x.pushEdge(fr, b, b.Succs[0], "true", only)
+				x.pushEdge(fr, b, b.Succs[1], "false", only)
+				return
+			}
+		}
 		x.pushEdge(fr, b, b.Succs[0], c, only)
 		x.pushEdge(fr, b, b.Succs[1], not(c), only)
 	case *ssa.Jump:
